@@ -15,6 +15,7 @@ name, qname) the real code pushed to.  Snapshots are taken at put() time, like
 serialisation on the real ZMQ channels would.
 """
 import os
+import shutil
 import queue as pyqueue
 import threading
 from unittest import mock
@@ -257,6 +258,8 @@ class Driver:
         return c
 
     def stager(self, bf):
+        if getattr(self, 'real', None) is not None:
+            return self.real_stager()
         st = mock.MagicMock()
 
         def hsd(sd):
@@ -421,7 +424,9 @@ class Driver:
                 raise OSError('exec format error')
             return FakeProc(x[1] if x[0] == 'exit' else None)
         try:
-            with mock.patch.object(popen_mod.sp, 'Popen', fake_popen), \
+            import subprocess
+            # (sp is the subprocess module itself: only the executor gets the fake)
+            with mock.patch.object(popen_mod.sp, 'Popen', fake_popen if comp == 'aexec' else subprocess.Popen), \
                  mock.patch.object(compmod.time, 'sleep', lambda *_: None):
                 r = c.work_cb()
                 if not r:
@@ -552,8 +557,128 @@ class Driver:
             steps.append({'ret': ret, 'em': self.em[mark:]})
         return {'steps': steps, 'left': {k: [unum(t['uid']) for t in v] for k, v in queues.items() if v}}
 
+    # ------------------------------------------------------------------ real staging
+    def real_stager(self):
+        """the REAL StagingHelper (local backend); every directive it enacts is
+        watched: did it raise, and is the target afterwards a real copy / link
+        of the source (or the moved source)"""
+        from radical.pilot.utils.staging_helper import StagingHelper
+        st = StagingHelper(mock.MagicMock())
+        assert type(st._backend).__name__ == 'StagingHelper_Local', type(st._backend)
+        real = st.handle_staging_directive
+        ru, rpc = self.ru, self.rpc
+
+        def hsd(sd):
+            src = os.path.normpath(ru.Url(str(sd['source'])).path)
+            tgt = os.path.normpath(ru.Url(str(sd['target'])).path)
+            rec = self.real.get(tgt)
+            into = os.path.isdir(tgt)
+            was_file = os.path.isfile(src)
+            data = open(src, 'rb').read() if was_file else None
+            try:
+                real(sd)
+            except BaseException:
+                if rec is not None:
+                    rec['steps'].append(False)
+                raise
+            if rec is None:
+                return
+            rt = os.path.join(tgt, os.path.basename(src)) if into else tgt
+            act = sd['action']
+            if act in (rpc.COPY, rpc.TRANSFER):
+                ok = os.path.exists(rt) and not os.path.islink(rt) and os.path.exists(src) and (
+                    (was_file and os.path.isfile(rt) and open(rt, 'rb').read() == data) or
+                    (os.path.isdir(src) and os.path.isdir(rt)))
+            elif act == rpc.LINK:
+                ok = os.path.exists(tgt) and os.path.exists(src) and os.path.samefile(src, tgt)
+            elif act == rpc.MOVE:
+                ok = os.path.exists(rt) and not os.path.islink(rt) and not os.path.lexists(src) and (
+                    not was_file or (os.path.isfile(rt) and open(rt, 'rb').read() == data))
+            else:
+                ok = True
+            rec['steps'].append(True)
+            rec['post'].append(bool(ok))
+        st.handle_staging_directive = hsd
+        return st
+
+    def run_real(self, case):
+        """one bulk through ONE real stager with the real StagingHelper on a
+        scratch tree.  Per task: a tree {path id: 'A'|'F'|'D'} and directives
+        [action, source id, target id, flags]; path ids >= 50 live under a
+        parent directory that does not exist yet."""
+        rpc = self.rpc
+        stage = case['stage']
+        self.em, self.pushed = [], {}
+        self.real = {}
+        self.realn = getattr(self, 'realn', 0) + 1
+        ACT = dict(copy=rpc.COPY, link=rpc.LINK, move=rpc.MOVE, transfer=rpc.TRANSFER, tarball=rpc.TARBALL)
+        blank = dict(assign=False, tin=False, ain=False, stdio=False, aout=False, tout=False,
+                     sched='start', exec=['exit', 0])
+        self.spec, things, info = {}, [], {}
+        try:
+            for t in case['tasks']:
+                uid = t['uid']
+                root = os.path.join(self.sbox, 'real', '%d' % self.realn, 't%d' % uid)
+                os.makedirs(root)
+
+                def path(p, root=root):
+                    if p >= 50:
+                        return os.path.join(root, 'deep%d' % p, 'x', 'p%d' % p)
+                    return os.path.join(root, 'p%d' % p)
+                for p, k in t['tree']:
+                    if k == 'F':
+                        os.makedirs(os.path.dirname(path(p)), exist_ok=True)
+                        open(path(p), 'w').write('content of %d/%d\n' % (uid, p))
+                    elif k == 'D':
+                        os.makedirs(path(p))
+                        open(os.path.join(path(p), 'inner'), 'w').write('inner %d\n' % p)
+                sds, recs = [], []
+                for i, (a, sp, tp, fl) in enumerate(t['sds']):
+                    sds.append({'uid': 'sd.%d' % i, 'action': ACT[a], 'flags': fl, 'priority': 0,
+                                'source': 'file://localhost' + path(sp), 'target': 'file://localhost' + path(tp)})
+                    rec = {'steps': [], 'post': []}
+                    self.real[os.path.normpath(path(tp))] = rec
+                    recs.append(rec)
+                ran = stage in ('aout', 'tout')
+                spec = dict(uid=uid, bind='known', tin=False, ain=False, aout=False, tout=False, soe=False,
+                            fa=blank, tgt='DONE' if ran else None, exc=False, exit=0 if ran else None)
+                self.spec[uid] = spec
+                os.makedirs(self.sandboxes(tuid(uid))['task_sandbox_path'], exist_ok=True)
+                task = self.mk_task(stage, spec)
+                key = 'input_staging' if stage in ('tin', 'ain') else 'output_staging'
+                task['description'][key] = sds
+                things.append(task)
+                paths = sorted({p for p, _ in t['tree']} | {x for d in t['sds'] for x in d[1:3]})
+                info[uid] = (path, paths, recs)
+            c = self.build(stage, dict(case, comp=stage, bf=False, hp=False, thr=1 << 20))
+            ret = self.deliver(c, things)
+        finally:
+            self.real = None
+        per = []
+        for t in case['tasks']:
+            path, paths, recs = info[t['uid']]
+            tree = []
+            for p in paths:
+                f = path(p)
+                if os.path.islink(f) or (os.path.lexists(f) and not os.path.exists(f)):
+                    tree.append([p, 'X', []])
+                elif os.path.isdir(f):
+                    ch = sorted(int(n[1:]) for n in os.listdir(f) if n[:1] == 'p' and n[1:].isdigit())
+                    tree.append([p, 'D', ch])
+                elif os.path.isfile(f):
+                    tree.append([p, 'F', []])
+                else:
+                    tree.append([p, 'A', []])
+            per.append({'uid': t['uid'], 'tree': tree,
+                        'enacted': sum(len(r['steps']) for r in recs),
+                        'post_ok': all(all(r['post']) for r in recs)})
+        shutil.rmtree(os.path.join(self.sbox, 'real', '%d' % self.realn), ignore_errors=True)
+        return {'ret': ret, 'em': self.em, 'per': per}
+
     def run(self, case):
         k = case['kind']
+        if k == 'real':
+            return self.run_real(case)
         if k == 'comp':
             return self.run_comp(case)
         if k == 'generic':
